@@ -383,6 +383,14 @@ def check_case(case):
             from xfab import parameters as P
 
             vals = [("int", v) for v in INTS] + [("float", v) for v in FLOATS] + [("str", v) for v in STRINGS]
+            # numpy.float64 IS a float (subclass): values an optimiser or an array element hands to set()/set_variable_values(); 17 significant
+            # digits, so any printing shorter than repr loses bits.  Also run under coarse numpy print options (environment alphabet).
+            import math
+
+            import numpy as np
+
+            vals += [("float", np.float64(v)) for v in (1.0 / 3.0, 0.1 + 0.2, math.pi * 1e5, 1e22, 5e-324, -0.0, 2.0 / 3.0 * 1e-7, 123456789.12345679)]
+            vals += [("float", np.array([1.0 / 7.0, 2.5])[0]), ("float", np.float64(np.float32(0.1)))]
             if tier == "thorough":
                 vals += [("int", v) for v in (2 ** 63, -(10 ** 309), 10 ** 400)] + [("float", v) for v in (1e-310, 2.2250738585072014e-308, 0.30000000000000004)]
             for i, (ty, v) in enumerate(vals):
@@ -392,6 +400,9 @@ def check_case(case):
                     p = P.parameters()
                     p.set(name, v)
                     p.set("other", 5)
+                    old_po = np.get_printoptions()
+                    if i % 2:
+                        np.set_printoptions(precision=3, suppress=True)
                     try:
                         p.saveparameters(fn)
                         q = P.read_par_file(fn)
@@ -400,6 +411,8 @@ def check_case(case):
                         r.evals += 1
                         r.violation(key, "save then load raised", None, repr(ex))
                         continue
+                    finally:
+                        np.set_printoptions(**old_po)
                     want = {name.replace("-", "_"): tag(v), "other": tag(5)}
                     r.require({k: tag(x) for k, x in got.items()} == want, key, "save then load gives back the same name->value mapping (type and bits)", want,
                               {k: tag(x) for k, x in got.items()})
